@@ -29,7 +29,7 @@ use crate::cert::CertRef;
 use crate::crypto::CanonAeadKey;
 use crate::crypto::{
     CanonPkcPublicKeyRef, CanonPkcSignature, CanonPkcSignatureRef, Crypto, Hash,
-    AEAD_CANON_KEY_LEN, AEAD_TAG_LEN,
+    AEAD_CANON_KEY_LEN, AEAD_KEY_ZEROED, AEAD_TAG_LEN,
 };
 use crate::error::{Error, ErrorCode};
 use crate::sc::{complete_with_status, GeneralCode, OpCode, SCStatusCodes, StatusReport};
@@ -440,14 +440,24 @@ impl<'a, C: Crypto + 'a> CaseInitiator<'a, C> {
         let mut signature = MaybeUninit::<CanonPkcSignature>::uninit();
         let signature = signature.init_with(CanonPkcSignature::init());
 
+        let mut sigma3_key = AEAD_KEY_ZEROED;
+
         exchange.with_state(|state| {
             let fabric = state.fabrics.fabric(fab_idx)?;
 
             // Use a temporary buffer for the TBS data
             let mut tmp_buf = alloc!([0u8; CASE_LARGE_BUF_SIZE]);
-            initiator
-                .casep
-                .compute_sigma3_signature(crypto, fabric, &mut tmp_buf[..], signature)
+            initiator.casep.compute_sigma3_signature(
+                crypto,
+                fabric,
+                &mut tmp_buf[..],
+                signature,
+            )?;
+
+            // `send_with` calls its closure again for an MRP retransmission, by which time
+            // Sigma3 is part of the transcript: derive the Sigma3 key once, now, so that every
+            // copy of Sigma3 is byte-identical (and decryptable by the responder).
+            initiator.casep.sigma3_key(crypto, fabric, &mut sigma3_key)
         })?;
 
         // Step 7: Build and send Sigma3
@@ -459,9 +469,13 @@ impl<'a, C: Crypto + 'a> CaseInitiator<'a, C> {
 
                     tw.start_struct(&TLVTag::Anonymous)?;
                     tw.str_cb(&TLVTag::Context(1), |buf| {
-                        initiator
-                            .casep
-                            .sigma3_encrypt(crypto, fabric, signature.reference(), buf)
+                        initiator.casep.sigma3_encrypt(
+                            crypto,
+                            fabric,
+                            sigma3_key.reference(),
+                            signature.reference(),
+                            buf,
+                        )
                     })?;
                     tw.end_container()?;
 
